@@ -85,16 +85,7 @@ def seed_keys(cases, impl_lines):
     for c, line in zip(cases, impl_lines):
         if line.startswith('("ok"'):
             r = parse_sx(line)
-            s1 = bytes(r[1])
-            inner = s1[1:-1] if len(s1) >= 2 else b""
-            for span in inner.split(b","):
-                if span[:1] in (b"[", b"(") and span[-1:] in (b"]", b")"):
-                    parts = span[1:-1].split(b":")
-                    if len(parts) == 2:
-                        c["keys"].add((0, parts[0]))
-                        c["keys"].add((1, parts[1]))
-                elif span and span != b"<empty>":
-                    c["keys"].add((0, span))
+            c["keys"] |= ctable.set_string_keys(bytes(r[1]))
 
 
 def oracle(ctx, cases, impl_lines):
